@@ -103,6 +103,38 @@ CHECKS = {
         "DESIGN.md section 5 (C12)",
         "E4 tape models",
     ),
+    "C13": (
+        "property-based testing (proptest): save/load round trip + frame condition + independent parser + behavioural continuation against the reference machine",
+        "exploration",
+        "Arbitrary machine states (registers, latch incl. lock, border, RAM) are built through hooks; save_snapshot must leave registers, every RAM bank, latch and border untouched and produce a file that the harness' own SNA parser reads back to that state; loading it into the same emulator after scrambling, or a fresh / halted / mid-prefix / paging-locked / EI-pending one, must restore every carried item and all CPU-visible memory, and the following instructions (with an interrupt on the way) must match the reference machine continuing from the saved state.",
+        REF + "48K proviso (two bytes below SP in RAM) applied as a counted generator skip.",
+        "DESIGN.md section 5 (C13)",
+        "E3 formats + E2 reference machine",
+    ),
+    "C14": (
+        "property-based testing (proptest) with independent SNA/SZX/SCR writers: direct state comparison, lock-step behaviour, metamorphic equality across encodings, mismatch rejection",
+        "exploration",
+        "Abstract states are encoded as SNA, SZX stored/zlib and 'fancy' SZX (permuted chunks, unknown chunks, lower-case ids) and loaded into receivers in six prior states; registers, RAM, latch, border, cycle counter, MEMPTR, HALTED and EILAST behaviour, AY read-back and audible tone, mouse presence and the displayed picture are compared with the described state; all encodings of one state must behave identically; files of the other model must be rejected or applied with the right layout; repository SNA assets cross-check the harness parser.",
+        REF + "Only well-formed files are generated here (C15 owns malformed input).",
+        "DESIGN.md section 5 (C14)",
+        "E3 formats + E2 reference machine",
+    ),
+    "C15": (
+        "fault enumeration at every asset call index + property-based structure-aware corruption (proptest) + coverage-guided fuzzing (libFuzzer) with a totality monitor",
+        "fault_enumeration",
+        "Every loader (SNA, SZX, SCR, TAP incl. fast-load request and real-time playing, ROM, gzip, VTX incl. playing) is exercised on both machines with: a fault (error / short read / premature EOF, one-shot or sticky) at every read/seek index of a successful load; valid files with field/structure mutations; explicit adversarial SZX chunk lists and VTX headers; uniform bytes up to 160 KiB; the committed corpus. The monitor catches panics with overflow checks and debug assertions on (profile `checked`), counts allocations (single request > max(16 MiB, 64x input) is a violation), detects read-after-EOF loops deterministically, and requires 3 more frames of emulation afterwards. Thorough adds a libFuzzer campaign (16 workers) on the same oracle.",
+        "Trusted: the monitor (catch_unwind, counting allocator, work counter). Open known finding: panic inside the pinned delharc LH5 decoder (tolerated by signature, probed on every run).",
+        "DESIGN.md section 5 (C15)",
+        "E3 formats + fault-injecting assets + libFuzzer target",
+    ),
+    "C16": (
+        "property-based metamorphic testing (proptest): the same scenario under different host drivings and asset implementations must reach identical state hashes",
+        "exploration",
+        "Generated interrupt-driven programs with AY/beeper/paging/screen/keyboard/joystick/mouse/tape activity and frame-indexed input scripts are run one frame per call (reference) and again under a partition into FrameCount(n) calls, maximum-speed mode with scripted stopwatch readings, breakpoint stops with resumption, undrained audio, sound switched off, and with the initial file delivered through BufferCursor, FileAsset, GzipAsset or 1..255-byte short reads; hashes of registers, all RAM, paging, frame clock, canvas and border must agree at every common frame count; repeated runs must also agree on audio bit for bit.",
+        "Trusted: frame-counter hook for alignment; inputs applied between calls at equal frame indices.",
+        "DESIGN.md section 5 (C16)",
+        "emulator metamorphic driver",
+    ),
     "C17": (
         "property-based testing (proptest) of input event histories against a set model, read back through emulated IN instructions",
         "exploration",
@@ -110,6 +142,22 @@ CHECKS = {
         "Trusted: keyboard matrix/compound/Sinclair tables written from hardware documentation. Known finding: Sinclair joystick 2 'down' (excluded by construction while its probe reproduces it).",
         "DESIGN.md section 5 (C17)",
         "E2 emulator lock-step",
+    ),
+    "C18": (
+        "property-based testing (proptest) with signal-feature oracles (crossing counts, ramp contours, levels) on the sound generator; emulated port read-back",
+        "exploration",
+        "Register programmes over chip type, clock 1-2 MHz, sample rate 8-384 kHz and stereo mode are rendered and judged by features with stated tolerances: tone frequency f_clk/(16 TP) by hysteresis crossing count (write order permuted), noise clock by transition rate and its halving when NP doubles, all 16 envelope shapes by the contour of the first four ramps of length 256 EP/f_clk, volume monotonicity, mixer gating, panning per mode, finiteness and bounds under arbitrary write/generate interleavings; AY port read-back and register numbers modulo 16 through the emulated CPU. Thorough sweeps all 4095 periods x 3 channels.",
+        "Trusted: feature extractors and tolerances stated in the evidence. Open known finding: tone period 1 renders as a flat level (tolerated only in that class).",
+        "DESIGN.md section 5 (C18)",
+        "E5 audio feature extractors",
+    ),
+    "C19": (
+        "property-based differential testing (proptest): sample counts and per-sample speaker levels against the reference machine's timestamped ULA writes",
+        "exploration",
+        "Generated speaker-toggling programs at rates 8000-384000, volumes, enable combinations and drain behaviours: cumulative sample count must be frames x floor(rate/50); with the beeper alone every sample must equal the level of a speaker/MIC state current within one sample period of its frame time (levels measured on a calibration machine, states and times from the reference machine); monotone in EAR then MIC, left = right, linear in volume, volume 0 silent, finite; undrained queues stay below two frames.",
+        REF,
+        "DESIGN.md section 5 (C19)",
+        "E2 reference machine + emulator",
     ),
     "C20": (
         "property-based testing (proptest): recording-backend schedule oracle + chunking metamorphic relation + writer/loader round trip",
